@@ -227,20 +227,6 @@ fn tail_letters(mode: Mode, version: u8, ptype: u8, two_mbs: bool) -> Vec<Letter
 }
 
 /// Decode a sequence two ways; returns number of decode calls made.
-/// Byte source that shows how far it has been read.
-struct CountingSrc<'a> {
-    data: &'a [u8],
-    pos: usize,
-}
-impl std::io::Read for CountingSrc<'_> {
-    fn read(&mut self, buf: &mut [u8]) -> std::io::Result<usize> {
-        let n = buf.len().min(self.data.len() - self.pos);
-        buf[..n].copy_from_slice(&self.data[self.pos..self.pos + n]);
-        self.pos += n;
-        Ok(n)
-    }
-}
-
 fn run_seq(rep: &Report, mode: Mode, init: Option<&Letter>, seq: &[&Letter]) -> u64 {
     let opts = if mode == Mode::Sorenson { 1 } else { 0 };
     let mut model = Dec::new(opts); // decoder B (one reader per picture) + reference decoder
@@ -261,7 +247,6 @@ fn run_seq(rep: &Report, mode: Mode, init: Option<&Letter>, seq: &[&Letter]) -> 
         json!({"kind": "stream", "options": opts, "init": steps.iter().map(|b| crate::bits::hex(b)).collect::<Vec<_>>(), "concatenated": crate::bits::hex(&concat), "pictures": names, "note": note})
     };
     let mut rd = H263Reader::from_source(&concat[..]);
-    let mut snaps = vec![];
     for (i, l) in seq.iter().enumerate() {
         calls += 2;
         let oa = decode_with(&mut a, &mut rd);
@@ -298,47 +283,6 @@ fn run_seq(rep: &Report, mode: Mode, init: Option<&Letter>, seq: &[&Letter]) -> 
                         replay("pictures differ"),
                     );
                     return calls;
-                }
-                snaps.push(sa);
-            }
-        }
-    }
-    // third delivery: one *source* for the whole stream, one fresh reader per picture over it (what
-    // a demultiplexer does that reads its own fields between pictures): a successful decode must
-    // have taken exactly its picture's bytes from the source, so that the next reader starts at
-    // the next picture
-    {
-        let mut c = H263State::new(options_from_bits(opts));
-        if let Some(i0) = init {
-            let _ = decode_bytes(&mut c, &i0.bytes);
-        }
-        let mut src = CountingSrc { data: &concat, pos: 0 };
-        let mut end = 0usize;
-        for (i, l) in seq.iter().enumerate() {
-            end += l.bytes.len();
-            calls += 1;
-            let o = {
-                let mut rd = H263Reader::from_source(&mut src);
-                decode_with(&mut c, &mut rd)
-            };
-            match o {
-                Outcome::Panic(p) => {
-                    rep.violation(&panic_sig(&p), format!("sequence {names:?}, call {i} with a reader per picture over one source: panic {p}"), replay("panic with a reader per picture over one source"));
-                    return calls;
-                }
-                Outcome::Err(e) => {
-                    rep.violation("C15/reader-per-picture-over-one-source-fails", format!("sequence {names:?}: picture {i}, read through its own reader from the source the previous pictures' readers were reading from, fails with {e} (the source stood at byte {} of {}, the picture begins at byte {})", src.pos, concat.len(), end - l.bytes.len()), replay("reader per picture over one source"));
-                    return calls;
-                }
-                Outcome::Ok => {
-                    if last_snap(&c) != snaps[i] {
-                        rep.violation("C15/reader-per-picture-over-one-source-differs", format!("sequence {names:?}: picture {i} read through its own reader over the shared source differs"), replay("reader per picture over one source"));
-                        return calls;
-                    }
-                    if src.pos != end {
-                        rep.violation("C15/decode-takes-bytes-beyond-its-picture-from-the-source", format!("sequence {names:?}: after picture {i} the source stands at byte {}, the picture ends at byte {end}", src.pos), replay("reader per picture over one source"));
-                        return calls;
-                    }
                 }
             }
         }
@@ -725,18 +669,5 @@ pub fn replay(case: &serde_json::Value) {
     for i in 0..n {
         let o = decode_with(&mut st, &mut rd);
         println!("call {i} on the shared reader: {} last={:?}", o.short(), last_snap(&st).map(|s| (s.dims, s.tr, s.ptype.clone(), format!("{:016x}", s.hash()))));
-    }
-    // the same bytes through one fresh reader per call over one source
-    let mut st = H263State::new(options_from_bits(opts));
-    for s in case["init"].as_array().unwrap() {
-        let _ = decode_bytes(&mut st, &crate::bits::unhex(s.as_str().unwrap()));
-    }
-    let mut src = CountingSrc { data: &concat, pos: 0 };
-    for i in 0..n {
-        let o = {
-            let mut rd = H263Reader::from_source(&mut src);
-            decode_with(&mut st, &mut rd)
-        };
-        println!("call {i} through a fresh reader over the shared source: {} last={:?}; the source now stands at byte {} of {}", o.short(), last_snap(&st).map(|s| (s.dims, s.tr, s.ptype.clone(), format!("{:016x}", s.hash()))), src.pos, concat.len());
     }
 }
